@@ -3,6 +3,7 @@
    `den_X A i j` is the sum of all stored values of A at (i,j): the operator A represents. *)
 From Raptor Require Import Base.Sums Sparse.Defs Sparse.ConvertProofs Sparse.SortProofs Sparse.Block Sparse.BlockProofs Sparse.BlockConvProofs Sparse.BlockDedupProofs.
 From Coq Require Import Sorted.
+From Raptor Require Import Sparse.CooDedupProofs.
 From Raptor Require Import Dist.Comm Dist.ParMat Dist.ParConv Dist.ParConvProofs.
 
 Section C07.
@@ -216,6 +217,20 @@ Proof.
   - apply (bden_csc_remove_duplicates F zero one add mul sub opp Fth bsmall br bc n I J r c Hr Hc C HC).
 Qed.
 
+(* COO remove_duplicates: entries at equal positions are summed and nothing is dropped: operator, dimensions and
+   well-formedness unchanged, and no position is stored that was not stored before *)
+Theorem C07_coo_remove_duplicates (A : coo F) :
+  (forall i j, denCoo (coo_remove_duplicates F add A) i j = denCoo A i j) /\
+  coo_nr (coo_remove_duplicates F add A) = coo_nr A /\ coo_nc (coo_remove_duplicates F add A) = coo_nc A /\
+  (coo_wf A -> coo_wf (coo_remove_duplicates F add A)) /\
+  (forall e, In e (coo_ents (coo_remove_duplicates F add A)) ->
+     exists e', In e' (coo_ents A) /\ erow e' = erow e /\ ecol e' = ecol e).
+Proof.
+  split; [intros; apply (den_coo_remove_duplicates F zero one add mul sub opp Fth)|].
+  split; [reflexivity|split; [reflexivity|]].
+  split; [apply coo_remove_duplicates_wf|apply coo_remove_duplicates_pos].
+Qed.
+
 (* ---------------- distributed counterparts (core/par_matrix.cpp, util/linalg/par_add.cpp) ----------------
    `gden_row rs li j` is entry (first_local_row + li, j) of the global operator as held by one rank
    (on-process block + off-process block through the column map). *)
@@ -300,3 +315,4 @@ Print Assumptions C07_block_remove_duplicates.
 Print Assumptions C07_par_conversions.
 Print Assumptions C07_par_transpose.
 Print Assumptions C07_par_add_subtract.
+Print Assumptions C07_coo_remove_duplicates.
